@@ -9,6 +9,8 @@ import (
 	"sync"
 	"time"
 
+	"google.golang.org/grpc/codes"
+	"google.golang.org/grpc/status"
 	"google.golang.org/protobuf/proto"
 	"google.golang.org/protobuf/reflect/protoreflect"
 	"google.golang.org/protobuf/types/known/fieldmaskpb"
@@ -22,6 +24,7 @@ import (
 	"github.com/smart-core-os/sc-golang/pkg/trait/enterleavesensorpb"
 	"github.com/smart-core-os/sc-golang/pkg/trait/hailpb"
 	"github.com/smart-core-os/sc-golang/pkg/trait/metadatapb"
+	"github.com/smart-core-os/sc-golang/pkg/trait/openclosepb"
 	"github.com/smart-core-os/sc-golang/pkg/trait/parentpb"
 )
 
@@ -464,7 +467,7 @@ func aliasRaceRun(w *World) {
 
 func aliasModelsRun(w *World) {
 	t := w.Tape
-	switch t.Choose(6) {
+	switch t.Choose(7) {
 	case 0:
 		aliasParent(w)
 	case 1:
@@ -473,9 +476,107 @@ func aliasModelsRun(w *World) {
 		aliasEnterLeave(w)
 	case 3:
 		aliasHail(w)
+	case 4:
+		aliasOpenClose(w)
 	default:
 		aliasReflective(w)
 	}
+}
+
+// aliasOpenClose: a model whose writes span several records. UpdatePositions writes one position after the other, with
+// the caller's write options (preconditions, interceptors) applied to each: a later position that is refused leaves the
+// call with an error after earlier ones were written. Whatever the model does about that, the messages it handed out
+// before stay what they were.
+func aliasOpenClose(w *World) {
+	t := w.Tape
+	mon := &aliasMon{w: w, key: map[string]any{"model": "openclosepb"}}
+	var mopts []resource.Option
+	readOnly := t.Flag(1, 2)
+	if readOnly {
+		// positions with fields only the driver sets (here: the resistance, present from the start): clients write the rest
+		mopts = append(mopts, openclosepb.WithPositionsOption(resource.WithWritablePaths(&traits.OpenClosePosition{}, "open_percent", "direction", "target_open_percent")),
+			openclosepb.WithInitialPositions(
+				&traits.OpenClosePosition{Direction: traits.OpenClosePosition_DIRECTION_UNSPECIFIED, OpenPercent: 1, Resistance: traits.OpenClosePosition_HELD},
+				&traits.OpenClosePosition{Direction: traits.OpenClosePosition_UP, OpenPercent: 2, Resistance: traits.OpenClosePosition_HELD},
+				&traits.OpenClosePosition{Direction: traits.OpenClosePosition_DOWN, OpenPercent: 3, Resistance: traits.OpenClosePosition_HELD}))
+	}
+	m := openclosepb.NewModel(mopts...)
+	ctx, cancel := context.WithCancel(context.Background())
+	defer cancel()
+	if t.Flag(2, 3) {
+		ch := m.PullPositions(ctx, resource.WithBackpressure(t.Flag(1, 2)))
+		w.Go("s", true, func(task *Task) {
+			for {
+				task.Yield("recv")
+				e, ok := <-ch
+				if !ok {
+					return
+				}
+				mon.track("subscriber: PullPositions value", e.Positions)
+			}
+		})
+	}
+	dirs := []traits.OpenClosePosition_Direction{traits.OpenClosePosition_DIRECTION_UNSPECIFIED, traits.OpenClosePosition_UP, traits.OpenClosePosition_DOWN}
+	n := 3 + t.Choose(6)
+	w.Go("w", false, func(task *Task) {
+		for i := 0; i < n; i++ {
+			task.Yield("op")
+			var desc string
+			switch t.Choose(5) {
+			case 0:
+				r, _ := m.GetPositions()
+				desc = "GetPositions()"
+				mon.track("caller: "+desc, r)
+			case 1:
+				d := dirs[t.Choose(len(dirs))]
+				r, _ := m.GetPosition(d)
+				desc = fmt.Sprintf("GetPosition(%v)", d)
+				mon.track("caller: "+desc, r)
+			default:
+				// 1-3 positions; sometimes with a precondition of the caller's that refuses one direction (so that a later
+				// position fails after earlier ones were written), sometimes with an interceptor of the caller's (a relative move)
+				k := 1 + t.Choose(3)
+				ps := &traits.OpenClosePositions{}
+				for j := 0; j < k; j++ {
+					st := &traits.OpenClosePosition{Direction: dirs[(i+j)%len(dirs)], OpenPercent: float32(10*i + j + 5)}
+					if !readOnly {
+						st.Resistance = traits.OpenClosePosition_HELD
+					}
+					ps.States = append(ps.States, st)
+				}
+				var wo []resource.WriteOption
+				kind := t.Choose(4)
+				refuse := dirs[t.Choose(len(dirs))]
+				switch kind {
+				case 1:
+					wo = append(wo, resource.WithExpectedCheck(func(old proto.Message) error {
+						if p, ok := old.(*traits.OpenClosePosition); ok && p != nil && p.Direction == refuse && p.OpenPercent > 0 {
+							return status.Error(codes.FailedPrecondition, "not this one")
+						}
+						return nil
+					}))
+				case 2:
+					wo = append(wo, resource.InterceptBefore(func(old, change proto.Message) {
+						if o, ok := old.(*traits.OpenClosePosition); ok && o != nil {
+							change.(*traits.OpenClosePosition).OpenPercent += o.OpenPercent
+						}
+					}))
+				}
+				r, err := m.UpdatePositions(ps, wo...)
+				desc = fmt.Sprintf("UpdatePositions(%d positions, options %d) -> %v", k, kind, err)
+				mon.track("caller: result of "+desc, r)
+			}
+			task.Note("%s", desc)
+			if !mon.check(desc) {
+				return
+			}
+		}
+	})
+	w.Run()
+	mon.check("the end of the run")
+	w.MarkNontrivial()
+	cancel()
+	w.Run()
 }
 
 // aliasHail: a model with housekeeping of its own. The hail model's keep-alive collector looks at every stored hail
